@@ -23,6 +23,24 @@ pub enum Dmg {
     AppendZeros { n: u16 },
     /// append `file[from .. from+len]` of the pristine file (`to_end`: up to its end)
     AppendSlice { from: u16, len: u16, to_end: bool },
+    /// overwrite a run of `len` (2..=64) consecutive bytes starting at the `pos`-selected byte of
+    /// the class (a zeroed / garbage / misdirected sector fragment); the run is clipped at the
+    /// current end of the file
+    Run { region: String, pos: u16, len: u8, fill: Fill },
+}
+
+/// What a `Dmg::Run` writes.
+#[derive(Clone, Debug, PartialEq, Eq, Serialize, Deserialize)]
+pub enum Fill {
+    Zeros,
+    Ones,
+    /// `bytes[i]` for the i-th byte of the run (0xa5 beyond the vector)
+    Random { bytes: Vec<u8> },
+    /// a copy of the pristine bytes at another offset of the same file that is congruent to the
+    /// destination modulo `1 << align_log2` (a misdirected write); `from` selects among the
+    /// candidate sources in file order; if the file has no other offset with that alignment the
+    /// alignment is halved until one exists
+    Copy { from: u16, align_log2: u8 },
 }
 
 impl Dmg {
@@ -36,8 +54,23 @@ impl Dmg {
             Dmg::AppendRandom { .. } => "append-random",
             Dmg::AppendZeros { .. } => "append-zeros",
             Dmg::AppendSlice { .. } => "append-slice",
+            Dmg::Run { fill: Fill::Zeros, .. } => "run-zeros",
+            Dmg::Run { fill: Fill::Ones, .. } => "run-ones",
+            Dmg::Run { fill: Fill::Random { .. }, .. } => "run-random",
+            Dmg::Run { fill: Fill::Copy { .. }, .. } => "run-copy",
         }
     }
+}
+
+/// Kinds that change the length of the file (everything else overwrites in place).
+pub fn changes_length(kind: &str) -> bool {
+    matches!(kind, "truncate" | "append-random" | "append-zeros" | "append-slice")
+}
+
+/// The first offset at which `damaged` differs from `pristine` (the shorter length if one is a
+/// prefix of the other; the common length if they are equal).
+pub fn first_difference(pristine: &[u8], damaged: &[u8]) -> usize {
+    pristine.iter().zip(damaged.iter()).position(|(a, b)| a != b).unwrap_or(pristine.len().min(damaged.len()))
 }
 
 /// What one damage did, resolved against the pristine file.
@@ -47,6 +80,9 @@ pub struct Applied {
     /// region class of the touched byte (for appends: "eof")
     pub region: String,
     pub offset: usize,
+    /// number of consecutive bytes overwritten in place starting at `offset` (1 for a flip or a
+    /// single-byte overwrite, the clipped length for a run, 0 for truncations and appends)
+    pub span: usize,
     pub detail: String,
     /// false if the damage could not be applied (empty class, offset beyond a previous truncation)
     /// or did not change anything
@@ -61,6 +97,21 @@ impl Applied {
             format!("dmg-noop:{}@{}", self.kind, self.region)
         }
     }
+    /// Every region class that the damage overwrote a byte of ("eof" for bytes beyond the pristine
+    /// length).  For single-byte damages, truncations and appends this is just `region`.
+    pub fn touched_classes(&self, regions: &Regions) -> Vec<String> {
+        if self.span <= 1 {
+            return vec![self.region.clone()];
+        }
+        let mut v: Vec<String> = vec![];
+        for o in self.offset..self.offset + self.span {
+            let c = if o >= regions.len { "eof" } else { regions.class_of(o) };
+            if !v.iter().any(|x| x == c) {
+                v.push(c.to_string());
+            }
+        }
+        v
+    }
     pub fn describe(&self) -> String {
         format!("{} in {} at offset {}{}{}", self.kind, self.region, self.offset, if self.detail.is_empty() { "" } else { " " }, self.detail)
     }
@@ -72,73 +123,141 @@ pub fn apply(pristine: &[u8], regions: &Regions, plan: &[Dmg]) -> (Vec<u8>, Vec<
     for d in plan {
         let kind = d.kind();
         // the byte after the previous in-place damage, if there was one
-        let next = out.last().filter(|a| a.effective && a.region != "eof" && a.kind != "truncate").map(|a| a.offset + 1).filter(|o| *o < cur.len() && *o < pristine.len());
+        let next = out.last().filter(|a| a.effective && a.region != "eof" && a.kind != "truncate").map(|a| a.offset + a.span.max(1)).filter(|o| *o < cur.len() && *o < pristine.len());
         let a = match d {
             Dmg::FlipNext { bit } => match next {
                 Some(off) => {
                     let old = cur[off];
                     cur[off] ^= 1 << (bit & 7);
-                    Applied { kind, region: regions.class_of(off).to_string(), offset: off, detail: format!("bit {} ({old:#04x} -> {:#04x}) [adjacent]", bit & 7, cur[off]), effective: true }
+                    Applied { kind, region: regions.class_of(off).to_string(), offset: off, span: 1, detail: format!("bit {} ({old:#04x} -> {:#04x}) [adjacent]", bit & 7, cur[off]), effective: true }
                 }
-                None => Applied { kind, region: "adjacent".into(), offset: 0, detail: "not applicable".into(), effective: false },
+                None => Applied { kind, region: "adjacent".into(), offset: 0, span: 0, detail: "not applicable".into(), effective: false },
             },
             Dmg::SetNext { val } => match next {
                 Some(off) => {
                     let old = cur[off];
                     cur[off] = *val;
-                    Applied { kind, region: regions.class_of(off).to_string(), offset: off, detail: format!("({old:#04x} -> {val:#04x}) [adjacent]"), effective: old != *val }
+                    Applied { kind, region: regions.class_of(off).to_string(), offset: off, span: 1, detail: format!("({old:#04x} -> {val:#04x}) [adjacent]"), effective: old != *val }
                 }
-                None => Applied { kind, region: "adjacent".into(), offset: 0, detail: "not applicable".into(), effective: false },
+                None => Applied { kind, region: "adjacent".into(), offset: 0, span: 0, detail: "not applicable".into(), effective: false },
             },
             Dmg::Flip { region, pos, bit } => match regions.pick(region, *pos) {
                 Some(off) if off < cur.len() => {
                     let old = cur[off];
                     cur[off] ^= 1 << (bit & 7);
-                    Applied { kind, region: region.clone(), offset: off, detail: format!("bit {} ({old:#04x} -> {:#04x})", bit & 7, cur[off]), effective: true }
+                    Applied { kind, region: region.clone(), offset: off, span: 1, detail: format!("bit {} ({old:#04x} -> {:#04x})", bit & 7, cur[off]), effective: true }
                 }
-                other => Applied { kind, region: region.clone(), offset: other.unwrap_or(0), detail: "not applicable".into(), effective: false },
+                other => Applied { kind, region: region.clone(), offset: other.unwrap_or(0), span: 0, detail: "not applicable".into(), effective: false },
             },
             Dmg::Set { region, pos, val } => match regions.pick(region, *pos) {
                 Some(off) if off < cur.len() => {
                     let old = cur[off];
                     cur[off] = *val;
-                    Applied { kind, region: region.clone(), offset: off, detail: format!("({old:#04x} -> {val:#04x})"), effective: old != *val }
+                    Applied { kind, region: region.clone(), offset: off, span: 1, detail: format!("({old:#04x} -> {val:#04x})"), effective: old != *val }
                 }
-                other => Applied { kind, region: region.clone(), offset: other.unwrap_or(0), detail: "not applicable".into(), effective: false },
+                other => Applied { kind, region: region.clone(), offset: other.unwrap_or(0), span: 0, detail: "not applicable".into(), effective: false },
             },
             Dmg::Truncate { region, pos } => match regions.pick(region, *pos) {
                 Some(off) if off < cur.len() => {
                     let was = cur.len();
                     cur.truncate(off);
-                    Applied { kind, region: region.clone(), offset: off, detail: format!("(length {was} -> {off})"), effective: true }
+                    Applied { kind, region: region.clone(), offset: off, span: 0, detail: format!("(length {was} -> {off})"), effective: true }
                 }
-                other => Applied { kind, region: region.clone(), offset: other.unwrap_or(0), detail: "not applicable".into(), effective: false },
+                other => Applied { kind, region: region.clone(), offset: other.unwrap_or(0), span: 0, detail: "not applicable".into(), effective: false },
             },
             Dmg::AppendRandom { bytes } => {
                 let off = cur.len();
                 cur.extend_from_slice(bytes);
-                Applied { kind, region: "eof".into(), offset: off, detail: format!("({} bytes)", bytes.len()), effective: !bytes.is_empty() }
+                Applied { kind, region: "eof".into(), offset: off, span: 0, detail: format!("({} bytes)", bytes.len()), effective: !bytes.is_empty() }
             }
             Dmg::AppendZeros { n } => {
                 let off = cur.len();
                 cur.resize(off + *n as usize, 0);
-                Applied { kind, region: "eof".into(), offset: off, detail: format!("({n} zero bytes)"), effective: *n > 0 }
+                Applied { kind, region: "eof".into(), offset: off, span: 0, detail: format!("({n} zero bytes)"), effective: *n > 0 }
             }
             Dmg::AppendSlice { from, len, to_end } => {
                 let off = cur.len();
                 if pristine.is_empty() {
-                    Applied { kind, region: "eof".into(), offset: off, detail: "not applicable".into(), effective: false }
+                    Applied { kind, region: "eof".into(), offset: off, span: 0, detail: "not applicable".into(), effective: false }
                 } else {
                     let a = vcore::gens::sel(*from, pristine.len());
                     let b = if *to_end { pristine.len() } else { a + 1 + vcore::gens::sel(*len, pristine.len() - a) };
                     cur.extend_from_slice(&pristine[a..b]);
-                    Applied { kind, region: "eof".into(), offset: off, detail: format!("(pristine[{a}..{b}], first byte in {})", regions.class_of(a)), effective: true }
+                    Applied { kind, region: "eof".into(), offset: off, span: 0, detail: format!("(pristine[{a}..{b}], first byte in {})", regions.class_of(a)), effective: true }
                 }
             }
+            Dmg::Run { region, pos, len, fill } => match regions.pick(region, *pos) {
+                Some(off) if off < cur.len() => {
+                    let n = ((*len).clamp(2, 64) as usize).min(cur.len() - off);
+                    let source = match fill {
+                        Fill::Copy { from, align_log2 } => copy_source(pristine.len(), off, n, *from, *align_log2),
+                        _ => None,
+                    };
+                    if matches!(fill, Fill::Copy { .. }) && source.is_none() {
+                        Applied { kind, region: region.clone(), offset: off, span: 0, detail: "not applicable (no other offset to copy from)".into(), effective: false }
+                    } else {
+                        let old = cur[off..off + n].to_vec();
+                        for i in 0..n {
+                            cur[off + i] = match fill {
+                                Fill::Zeros => 0,
+                                Fill::Ones => 0xff,
+                                Fill::Random { bytes } => bytes.get(i).copied().unwrap_or(0xa5),
+                                Fill::Copy { .. } => pristine[source.unwrap().0 + i],
+                            };
+                        }
+                        let detail = match source {
+                            Some((s, a)) => format!("({n} bytes copied from pristine[{s}..{}], offsets congruent modulo {a})", s + n),
+                            None => format!("({n} bytes)"),
+                        };
+                        Applied { kind, region: region.clone(), offset: off, span: n, detail, effective: old != cur[off..off + n] }
+                    }
+                }
+                other => Applied { kind, region: region.clone(), offset: other.unwrap_or(0), span: 0, detail: "not applicable".into(), effective: false },
+            },
         };
         out.push(a);
     }
     (cur, out)
+}
+
+/// The source of a copied run: the `from`-selected offset `s != dst` with `s + n <= len` and
+/// `s == dst (mod 1 << align_log2)`; the alignment is halved while no such offset exists.
+/// Returns (source offset, alignment used).
+pub fn copy_source(len: usize, dst: usize, n: usize, from: u16, align_log2: u8) -> Option<(usize, usize)> {
+    if n == 0 || n > len {
+        return None;
+    }
+    let mut a = 1usize << align_log2.min(12);
+    loop {
+        // candidates: dst % a + k * a for k = 0.. while the run fits, except dst itself
+        let first = dst % a;
+        let last_start = len - n;
+        if first <= last_start {
+            let count = (last_start - first) / a + 1;
+            let dst_is_candidate = dst <= last_start;
+            let usable = count - usize::from(dst_is_candidate);
+            if usable > 0 {
+                let mut k = vcore::gens::sel(from, usable);
+                if dst_is_candidate && first + k * a >= dst {
+                    k += 1;
+                }
+                return Some((first + k * a, a));
+            }
+        }
+        if a == 1 {
+            return None;
+        }
+        a /= 2;
+    }
+}
+
+fn fill() -> impl Strategy<Value = Fill> {
+    prop_oneof![
+        2 => Just(Fill::Zeros),
+        1 => Just(Fill::Ones),
+        2 => prop::collection::vec(any::<u8>(), 64).prop_map(|bytes| Fill::Random { bytes }),
+        3 => (any::<u16>(), prop_oneof![Just(12u8), Just(9u8), Just(6u8), Just(3u8), Just(0u8)]).prop_map(|(from, align_log2)| Fill::Copy { from, align_log2 }),
+    ]
 }
 
 fn byte_value() -> impl Strategy<Value = u8> {
@@ -161,7 +280,8 @@ pub fn plan_strategy(classes: Vec<(&'static str, u32)>) -> BoxedStrategy<Vec<Dmg
     let one = prop_oneof![
         45 => (region.clone(), any::<u16>(), 0u8..8).prop_map(|(region, pos, bit)| Dmg::Flip { region, pos, bit }),
         22 => (region.clone(), any::<u16>(), byte_value()).prop_map(|(region, pos, val)| Dmg::Set { region, pos, val }),
-        15 => (region, any::<u16>()).prop_map(|(region, pos)| Dmg::Truncate { region, pos }),
+        15 => (region.clone(), any::<u16>()).prop_map(|(region, pos)| Dmg::Truncate { region, pos }),
+        14 => (region, any::<u16>(), prop_oneof![4 => 2u8..=64, 1 => Just(64u8), 1 => 2u8..=8], fill()).prop_map(|(region, pos, len, fill)| Dmg::Run { region, pos, len, fill }),
         6 => prop::collection::vec(any::<u8>(), 1..40).prop_map(|bytes| Dmg::AppendRandom { bytes }),
         3 => prop_oneof![1u16..40, Just(4096u16)].prop_map(|n| Dmg::AppendZeros { n }),
         9 => (any::<u16>(), any::<u16>(), any::<bool>()).prop_map(|(from, len, to_end)| Dmg::AppendSlice { from, len, to_end }),
